@@ -185,8 +185,10 @@ func Cover(label string) { fmt.Println("TRACE cover", label) }
 
 // NewEnv returns a context and a KV store service. Natively: a real in-memory IAVL multistore
 // (as testutil/mocks.NewDependencies). Symbolically: intercepted, opaque (collections are summarised).
+var envKey = storetypes.NewKVStoreKey("orbiter")
+
 func NewEnv() (context.Context, corestore.KVStoreService) {
-	key := storetypes.NewKVStoreKey("orbiter")
+	key := envKey // (one key object for every environment: each mounts it in its own multistore)
 	db := dbm.NewMemDB()
 	cms := store.NewCommitMultiStore(db, log.NewNopLogger(), metrics.NewNoOpMetrics())
 	cms.MountStoreWithDB(key, storetypes.StoreTypeIAVL, db)
@@ -399,11 +401,45 @@ func StateDigest(ctx sdk.Context) string {
 	for _, k := range ctx.MultiStore().(interface{ StoreKeysByName() map[string]storetypes.StoreKey }).StoreKeysByName() {
 		it := ctx.KVStore(k).Iterator(nil, nil)
 		for ; it.Valid(); it.Next() {
+			if len(it.Key()) > 0 && it.Key()[0] == sidePrefix {
+				continue // the harness' own side store (bank model), not module state
+			}
 			fmt.Fprintf(&sb, "%x=%x;", it.Key(), it.Value())
 		}
 		it.Close()
 	}
 	return sb.String()
+}
+
+// ---- side store: integers kept IN the context's store (under a prefix the module does not use), so that whatever
+// branches or reverts the store (CacheContext inside the module, IBC / baseapp around it: E1) branches and reverts them
+// too. The bank ledger model keeps its balances here. Symbolically: a per-environment table that is snapshotted and
+// branched together with the summarised collections.
+
+const sidePrefix = 0xEE
+
+func sideKey(ctx context.Context, key string) (storetypes.KVStore, []byte) {
+	return sdk.UnwrapSDKContext(ctx).KVStore(envKey), append([]byte{sidePrefix}, key...)
+}
+
+// SideGet reads an integer of the side store (zero when absent).
+func SideGet(ctx context.Context, key string) math.Int {
+	st, k := sideKey(ctx, key)
+	bz := st.Get(k)
+	if bz == nil {
+		return math.ZeroInt()
+	}
+	v, ok := math.NewIntFromString(string(bz))
+	if !ok {
+		panic("verif: bad side store value")
+	}
+	return v
+}
+
+// SideSet writes an integer of the side store.
+func SideSet(ctx context.Context, key string, v math.Int) {
+	st, k := sideKey(ctx, key)
+	st.Set(k, []byte(v.String()))
 }
 
 // KnownAddress tells the engine about an account the harness uses, so that a SYMBOLIC receiver string can decode to it
